@@ -131,8 +131,33 @@ def build():
     _built = True
 
 
+class Aborted(ToolError):
+    """the harness process was killed by a signal (abort on allocation failure, stack overflow) while working on `case` (hex input)"""
+
+    def __init__(self, msg, case, stderr):
+        super().__init__(msg)
+        self.case, self.stderr = case, stderr
+
+
+import threading, itertools
+_wal_n = itertools.count(1)
+_wal_lock = threading.Lock()
+
+
 def harness(*args, timeout=3600, check=True):
-    r = subprocess.run([BIN] + [str(a) for a in args], stdout=subprocess.PIPE, stderr=subprocess.PIPE, text=True, timeout=timeout)
+    # write-ahead file: the input the harness was about to hand to the decoder when the process died
+    with _wal_lock:
+        k = next(_wal_n)
+    wal = os.path.join(VERIF, "work", "wal_%d_%d.hex" % (os.getpid(), k))
+    env = dict(os.environ, VERIF_WAL=wal)
+    try:
+        r = subprocess.run([BIN] + [str(a) for a in args], stdout=subprocess.PIPE, stderr=subprocess.PIPE, text=True, timeout=timeout, env=env)
+        case = open(wal).read() if os.path.exists(wal) else None
+    finally:
+        if os.path.exists(wal):
+            os.remove(wal)
+    if r.returncode < 0 and case is not None:
+        raise Aborted("harness %s died with signal %d" % (args[0], -r.returncode), case, r.stderr[-600:])
     if check and r.returncode != 0:
         raise ToolError("harness %s failed (%d): %s" % (args[0], r.returncode, r.stderr[-2000:]))
     return r
